@@ -102,6 +102,19 @@ theorem step_early_split (cfg : Cfg) (i : Nat) (s : Sh) (t : Th)
     by_cases h2 : ep = s.epoch <;>
       cases s.earlyNoDl <;> cases s.earlyStale <;> cases s.earlyOut <;> cases e <;> cases fr <;> simp [h2]
 
+/-- the thread is parked before cas(Open,HalfOpen), the word is Open, and a full retry timeout has not yet elapsed
+    since the breaker opened: its next step admits a probe early -/
+def earlyWinB (cfg : Cfg) (s : Sh) (t : Th) : Bool :=
+  match t.pc with
+  | .tpCas _ _ _ => s.st == .opened && decide (s.clock < s.openedAt + cfg.timeout)
+  | _ => false
+
+/-- the monitor `early` is raised by exactly those steps -/
+theorem step_early_eq (cfg : Cfg) (i : Nat) (s : Sh) (t : Th) :
+    (step cfg i s t).1.early = (s.early || earlyWinB cfg s t) := by
+  unfold step
+  split <;> (try split) <;> (try split) <;> (try split) <;> simp_all [fin, finR, earlyWinB]
+
 /-! ## timing: the deadline is a full timeout after the opening once it has been stored -/
 
 /-- shared part -/
